@@ -211,6 +211,9 @@ def one_pass(ctx, tape, observed, oseed):
     filename = b.filename
     text = b.prog.text
     sched = drv.schedule
+    # end every generator-like of the world for good, the same way in both twins: what is
+    # left suspended would be finalised by the garbage collector in an order of its own
+    driver.cleanup(b, drv.root)
     del b, W, drv
     if bat is not None:
         bat.W = None
